@@ -29,7 +29,7 @@ DEMO=$(python3 -c "import json,sys;print(json.load(open('$D/meta.json'))['demo_c
 # demonstrations of the process-backed driver need some `midicat` in PATH for the package init: the agents' stand-in lived in
 # their scratch worktree (/tmp/wt/C17/seeded/B/bin); the harness's own stand-in (.build/bin/midicat, built by setup.sh) does the same
 STANDIN="$PWD/.build/bin"; [ -d "$D/bin" ] && STANDIN="$PWD/$D/bin"   # a change may bring its own stand-in (seeded/<id>/bin)
-DEMO=$(echo "$DEMO" | sed -E "s#/tmp/wt/C[0-9]+/seeded/[A-Z]/bin#$STANDIN#g")
+DEMO=$(echo "$DEMO" | sed -E "s#/tmp/wt[0-9]?/C[0-9]+/seeded/[A-Z]/bin#$STANDIN#g")
 DEMOFILES=$(cd "$D/demo" && find . -type f | sed 's#^\./##')
 for f in $DEMOFILES; do mkdir -p "$WT/repo/$(dirname "$f")"; cp "$D/demo/$f" "$WT/repo/$f"; done
 run_demo() { (cd "$WT/repo/v2" && timeout 900 bash -c "$DEMO") > "$WT/demo.$1.log" 2>&1; echo $?; }
